@@ -399,6 +399,19 @@ func checkC07(c *Check) {
 		a, b, dir := transpileBoth(cell.src, cell.extra)
 		va, vb := verdictOf(a), verdictOf(b)
 		acc[i] = va == "accept"
+		if cell.extra == nil && (i%7 == 0 || strings.HasPrefix(cell.key, "fixed/") || strings.Contains(cell.key, "/func/")) {
+			// the same program as an imported file (names are then resolved with a non-empty prefix)
+			msrc, extra := importedVariant(cell.src)
+			ia, ib, idir := transpileBoth(msrc, extra)
+			c.Eval("imported\x00"+cell.src, true)
+			if verdictOf(ia) != cell.expect || verdictOf(ib) != cell.expect {
+				d := ""
+				if ia.Err != nil {
+					d = stripDir(ia.Err.Error(), idir)
+				}
+				c.Violation("imported/"+cell.key, fmt.Sprintf("the same program as an imported file: expected %s, bash=%s batch=%s %s", cell.expect, verdictOf(ia), verdictOf(ib), d), map[string]string{"main.tsh": msrc, "lib.tsh": cell.src})
+			}
+		}
 		c.Eval(cell.src, true)
 		files := map[string]string{"main.tsh": cell.src, "expected": cell.expect}
 		for n, s := range cell.extra {
